@@ -315,7 +315,11 @@ def r5_consumer_accounting(prog, rep: Report, pf: PoolFacts):
             continue
         pl = (pair_loops or chunk_loops)[0]
         if pair_loops:
-            if [src(a) for a in pl.iter.args] != recv:
+            def _uncopied(a):
+                while isinstance(a, ast.Call) and src(a.func) in ("list", "tuple") and len(a.args) == 1 and not a.keywords:
+                    a = a.args[0]               # zip(list(indices), list(chunks)) pairs the same items
+                return a
+            if [src(_uncopied(a)) for a in pl.iter.args] != recv:
                 probs.append(f"the loop pairs `{src(pl.iter)}` instead of zip({', '.join(recv)})")
             if not (isinstance(pl.target, ast.Tuple) and len(pl.target.elts) == 2):
                 rep.unrec("C01.R5", f, "accounting", "pair loop target is not (index, chunk)")
@@ -770,6 +774,33 @@ def feeder_early_exits(prog, rep: Report, pf: PoolFacts, rule: str):
         if not only_stop(guard.test):
             probs.append((e.lineno, f"the send loop is left under `{src(guard.test)}`, which does not require the stop event "
                                     f"self.{stop_ev}"))
+    if probs:
+        # the same question asked of the paths instead of the nearest `if`: does every path that leaves the loop early pass a test
+        # `self.<stop>.is_set()` that came out true?  (the test may sit in a helper whose boolean result is tested: `if not
+        # self._send(i, chunk): break`; boolean locals are followed by the flag tracker)
+        from ..absint import FlagTracking
+        from ..resolve import Scope
+
+        class _StopSeen(Client):
+            def should_inline(s_, func, call, ctx):
+                return func.cls is not None and not func.cls.is_external and func.name.startswith("_") and not func.name.startswith("__")
+
+            def refine(s_, test, state, ctx):
+                t = test
+                neg = False
+                while isinstance(t, ast.UnaryOp) and isinstance(t.op, ast.Not):
+                    t, neg = t.operand, not neg
+                if isinstance(t, ast.Call) and isinstance(t.func, ast.Attribute) and t.func.attr == "is_set" \
+                        and dotted(t.func.value) and dotted(t.func.value)[-1] == stop_ev:
+                    return ((state,), (True,)) if neg else ((True,), (state,))
+                return (state,), (state,)
+        it_ = Interp(prog, FlagTracking(_StopSeen()))
+        it_.stack.append((run_, None))
+        it_.yield_handlers.append(None)
+        ex_ = FlagTracking.unwrap(it_.block(loop.body, FlagTracking.wrap({False}), Scope(prog, run_, run_.cls)))
+        leaving = ex_.brk | ex_.ret
+        if not it_.unrecognised and leaving and all(s_ is True for s_ in leaving):
+            probs = []
     rep.check(rule, run_, "early-exit", not probs, f"{len(exits)} early exit(s), all guarded by self.{stop_ev}.is_set()",
               "; ".join(m for _, m in probs),
               scenario="results_queue_maxsize=1 and a first chunk that takes 3 s: the feeder is paused for more than its wait "
